@@ -196,6 +196,20 @@ impl PathAwareValue {
     pub fn type_info__canary(&self) -> (res: &'static str)
 { let r = self.type_info(); assert(false); r }
 }
+// ---- stub guard/src/rules/path_value.rs::compare_eq
+#[verifier::external_body]
+pub fn compare_eq(first: &PathAwareValue, second: &PathAwareValue) -> (res: Result<bool, Error>)
+    ensures
+        (first is Null && second is Null) || (first is Int && second is Int) || (first is Float && second is Float) || (first is Char && second is Char) ==>
+            (cv_spec(*first, *second) is Some ==> res == Ok::<bool, Error>(eq_spec_(*first, *second))) && (cv_spec(*first, *second) is None ==> res is Err),
+        first is Bool && second is Bool ==> res == Ok::<bool, Error>(first->Bool_0.1 == second->Bool_0.1),
+        first is Int && second is RangeInt ==> res == Ok::<bool, Error>(within_of(first->Int_0.1, second->RangeInt_0.1)),
+        first is Float && second is RangeFloat ==> res == Ok::<bool, Error>(within_of(first->Float_0.1, second->RangeFloat_0.1)),
+        first is Char && second is RangeChar ==> res == Ok::<bool, Error>(within_of(first->Char_0.1, second->RangeChar_0.1)),
+{ unimplemented!() }
+// ---- canary canary:callee:compare_eq
+pub fn compare_eq__canary(first: &PathAwareValue, second: &PathAwareValue) -> (res: Result<bool, Error>)
+{ let r = compare_eq(first, second); assert(false); r }
 // ---- fn guard/src/rules/path_value.rs::compare_values
 fn compare_values(first: &PathAwareValue, other: &PathAwareValue) -> (res: Result<Ordering, Error>)
     ensures
@@ -243,13 +257,8 @@ pub fn compare_le(first: &PathAwareValue, other: &PathAwareValue) -> (res: Resul
     ensures
         ord_res(*first, *other, res, lt_spec(*first, *other) || eq_spec_(*first, *other)),
 {
-    match compare_values(first, other) {
-        Ok(o) => match o {
-            Ordering::Greater => Ok(false),
-            Ordering::Equal | Ordering::Less => Ok(true),
-        },
-        Err(e) => Err(e),
-    }
+    
+    Ok(compare_eq(first, other)? || compare_lt(first, other)?)
 }
 // ---- canary canary:pre:compare_le
 pub fn compare_le__canary(first: &PathAwareValue, other: &PathAwareValue) -> (res: Result<bool, Error>)
@@ -275,13 +284,8 @@ pub fn compare_ge(first: &PathAwareValue, other: &PathAwareValue) -> (res: Resul
     ensures
         ord_res(*first, *other, res, gt_spec(*first, *other) || eq_spec_(*first, *other)),
 {
-    match compare_values(first, other) {
-        Ok(o) => match o {
-            Ordering::Greater | Ordering::Equal => Ok(true),
-            Ordering::Less => Ok(false),
-        },
-        Err(e) => Err(e),
-    }
+    
+    Ok(compare_eq(first, other)? || compare_gt(first, other)?)
 }
 // ---- canary canary:pre:compare_ge
 pub fn compare_ge__canary(first: &PathAwareValue, other: &PathAwareValue) -> (res: Result<bool, Error>)
@@ -298,11 +302,6 @@ impl PathAwareValue {
             (PathAwareValue::List((_, list)), PathAwareValue::List((_, list2))) => verif_eq(list, list2),
 
             (PathAwareValue::Bool((_, b1)), PathAwareValue::Bool((_, b2))) => b1 == b2,
-
-            
-            (PathAwareValue::Float((_, f1)), PathAwareValue::Float((_, f2))) => {
-                (f1 - f2).abs() < f64::EPSILON
-            }
 
             (PathAwareValue::String((_, s)), PathAwareValue::Regex((_, r))) => {
                 if let Ok(regex) = Regex::new(r.as_str()) {
